@@ -20,6 +20,10 @@
 (*   KF_GapAccept  a segment that is not the continuation of the data       *)
 (*                 parsed so far arrives while nothing anchors the buffer:  *)
 (*                 the code frames it on its own                            *)
+(*                 (only when the head of the buffer is a record boundary,  *)
+(*                 or a bogus header read from mid-record bytes happens to  *)
+(*                 fit -- see BogusOver; otherwise the code WAITS, is right,*)
+(*                 and the step is an ordinary "midgap" step)               *)
 (*   KF_SeqWrap    the 32-bit sequence number wraps between two segments    *)
 (*                 that sit in the buffer together: sort/contiguity ignore  *)
 (*                 the wrap                                                 *)
@@ -30,6 +34,9 @@ CONSTANTS StreamDef,   \* sequence of body sizes (cells) of the records of this 
           H,           \* header cells (5)
           MaxHeld, MaxDup, MaxSeg,
           AllowGap, AllowWrap,   \* enable the KF_* deviations
+          AllowMidGap,           \* environment: a segment may be captured ahead of the head of ITS OWN record (buffer anchored mid-record)
+          BogusOver,             \* data: the 16-bit "length" the code reads from mid-record bytes exceeds all that the direction still sends
+                                 \* (the common case for ciphertext; the concretizer checks the actual bytes).  FALSE: it may fit.
           Mod, IsnSet,           \* scaled sequence space (2^32 in the code) and initial sequence numbers
           EmitOn                 \* print behaviours as JSON at quiescence (generation configs)
 
@@ -64,7 +71,9 @@ RECURSIVE Parse(_, _, _)                             \* the two framing loops of
 Parse(off, hi, acc) ==
   IF off = hi THEN [r |-> "done", recs |-> acc]
   ELSE IF hi - off < H THEN [r |-> "need", recs |-> acc]
-  ELSE IF off \notin Bounds THEN [r |-> "garbage", recs |-> acc]  \* header read from mid-record bytes
+  ELSE IF off \notin Bounds THEN                                  \* header read from mid-record bytes:
+       IF BogusOver THEN [r |-> "need", recs |-> acc]               \*   first loop overshoots -> need_data
+       ELSE [r |-> "garbage", recs |-> acc]                         \*   may land on the buffer end -> garbage handed on
   ELSE LET k == RecAt(off) IN
        IF EndOf(k) > hi THEN [r |-> "need", recs |-> acc]
        ELSE Parse(EndOf(k), hi, Append(acc, k))
@@ -92,16 +101,19 @@ Handle(sg) ==                                        \* Session.handle_packet ; 
 NextOff == IF released = <<>> THEN 0 ELSE EndOf(released[Len(released)])
 MinSt(b) == Min({ x.st : x \in b })
 WrapIn(b) == \E x, y \in b : x.st < y.st /\ Key(x) > Key(y)
-IsGap(sg)  == Key(sg) \notin seen /\ MinSt(buf \cup {sg}) # NextOff
+Ahead(sg)  == Key(sg) \notin seen /\ MinSt(buf \cup {sg}) # NextOff            \* buffer not anchored at the next expected byte
+IsMidGap(sg) == Ahead(sg) /\ BogusOver /\ MinSt(buf \cup {sg}) \notin Bounds    \* ... anchored mid-record and the bogus length overshoots: code waits
+IsGap(sg)  == Ahead(sg) /\ ~IsMidGap(sg)
 IsWrap(sg) == Key(sg) \notin seen /\ WrapIn(buf \cup {sg})
-Kind(sg) == IF IsGap(sg) THEN "gap" ELSE IF IsWrap(sg) THEN "wrap" ELSE "ok"
-Allowed(sg) == (AllowGap \/ ~IsGap(sg)) /\ (AllowWrap \/ ~IsWrap(sg))
+Kind(sg) == IF IsGap(sg) THEN "gap" ELSE IF IsWrap(sg) THEN "wrap" ELSE IF IsMidGap(sg) THEN "midgap" ELSE "ok"
+Allowed(sg) == (AllowGap \/ ~IsGap(sg)) /\ (AllowWrap \/ ~IsWrap(sg)) /\ (AllowMidGap \/ ~IsMidGap(sg))
 
 Capture(sg, isdup) ==
   /\ Allowed(sg)
   /\ Handle(sg)
   /\ captured' = (IF isdup THEN captured ELSE captured \cup {sg})     \* first captures only: a retransmission is not provenance
-  /\ hist' = Append(hist, [st |-> sg.st, ln |-> sg.ln, dup |-> isdup, kf |-> Kind(sg)])
+  /\ hist' = Append(hist, [st |-> sg.st, ln |-> sg.ln, dup |-> isdup, kf |-> Kind(sg),
+                            head |-> IF Key(sg) \in seen THEN sg.st ELSE MinSt(buf \cup {sg})])
 
 (* ---------------- environment ---------------- *)
 Init == /\ isn \in IsnSet /\ sent = 0 /\ held = {} /\ captured = {} /\ dups = 0
